@@ -232,4 +232,81 @@ def run(ctx: Ctx) -> None:
                     src_line = Path(k[0]).read_text().split("\n")[k[1] - 1]
                     ctx.report(f"context:unexpected:{k[3]}", f"{k[3]} at {k[1]}:{k[2]} where no idiom starts: {src_line.strip()[:80]}",
                                {"line_text": src_line, "col": k[2]})
+        plugin_spellings(ctx, td, files, expect)
     ctx.extra["context_units"] = len(units)
+
+
+PLUGIN = '''\
+from dataclasses import dataclass
+from mypy.nodes import CallExpr, IntExpr, NameExpr, UnaryExpr
+from refurb.error import Error
+
+
+@dataclass
+class ErrorInfo(Error):
+    prefix = "PRB"
+    code = 100
+    msg: str = "probe"
+
+
+def check(node: CallExpr | UnaryExpr, errors: list[Error]) -> None:
+    match node:
+        case CallExpr(callee=NameExpr(name="int"), args=[IntExpr(value=0)]):
+            errors.append(ErrorInfo.from_node(node, "probe-call"))
+        case UnaryExpr(op="not", expr=UnaryExpr(op="not", expr=IntExpr(value=0))):
+            errors.append(ErrorInfo.from_node(node, "probe-not"))
+'''
+
+# the spellings under which one plugin file can be named; every list must give the same report
+SPELLINGS = [["probepkg.ctx_probe"], ["ctx_probe"], ["probepkg"], ["probepkg.ctx_probe", "ctx_probe"],
+             ["ctx_probe", "probepkg.ctx_probe"], ["probepkg", "ctx_probe"], ["ctx_probe", "probepkg"],
+             ["probepkg.ctx_probe", "probepkg.ctx_probe"], ["probepkg", "probepkg.ctx_probe", "ctx_probe"]]
+
+
+def plugin_spellings(ctx: Ctx, td: str, files: list[str], expect: dict) -> None:
+    """A plugin check subscribed to two node kinds, loaded under every spelling of its module name
+    (package, dotted module, bare module through a second path entry), alone and combined: each
+    idiom occurrence of the context corpus is reported once by it whatever the spelling."""
+    import re
+    from concurrent.futures import ThreadPoolExecutor
+    from ..harness import lint as L
+
+    root = Path(td) / "plugins"
+    (root / "probepkg").mkdir(parents=True)
+    (root / "probepkg" / "__init__.py").write_text("")
+    (root / "probepkg" / "ctx_probe.py").write_text(PLUGIN)
+    env = {"PYTHONPATH": f"{L.ENV['PYTHONPATH']}:{root}:{root / 'probepkg'}"}
+    use = files[:2]
+    want = {(k[0], k[1]) for k in expect if k[0] in use}
+    pat = re.compile(r"^(.*?):(\d+):(\d+) \[PRB100\]")
+
+    def one(loads):
+        args = [*use, "--quiet", "--disable-all", "--enable", "PRB100"] + [x for n in loads for x in ("--load", n)]
+        return loads, L.cli(args, env_extra=env)
+
+    with ThreadPoolExecutor(max_workers=len(SPELLINGS)) as ex:
+        results = list(ex.map(one, SPELLINGS))
+    for loads, (rc, out, err) in results:
+        name = "+".join(loads)
+        if not L.clean_verdict(rc, out, err):
+            ctx.report(f"plugin-spelling:{name}:crash", f"refurb --load {' --load '.join(loads)} ends with status {rc}: {(err or out)[-300:]}",
+                       {"loads": loads, "plugin": PLUGIN})
+            continue
+        got: dict = {}
+        for line in out.splitlines():
+            m = pat.match(line)
+            if m:
+                k = (m.group(1), int(m.group(2)))
+                got[k] = got.get(k, 0) + 1
+        # an f-string line keeps its line; lines hold one idiom each
+        for k in sorted(want):
+            ctx.case(("plugin-spelling", name, k))
+        bad = sorted((k, got.get(k, 0)) for k in want if got.get(k, 0) != 1)
+        if bad:
+            (f, ln), n = bad[0]
+            text = Path(f).read_text().split("\n")[ln - 1]
+            ctx.report(f"plugin-spelling:{name}:{'missed' if n == 0 else 'x%d' % n}",
+                       f"plugin check loaded as {loads}: {len(bad)} of {len(want)} occurrences not reported exactly once (first: {n} times, line {text.strip()[:80]})",
+                       {"loads": loads, "plugin": PLUGIN, "line_text": text, "times": n, "occurrences": len(want), "wrong": len(bad),
+                        "cmd": "PYTHONPATH=<plugins>:<plugins>/probepkg refurb <file> --disable-all --enable PRB100 " + " ".join("--load " + n_ for n_ in loads)})
+    ctx.count("plugin-spelling-runs", len(results))
